@@ -30,6 +30,20 @@ CLAIMED = {
     ),
 }
 
+EXEC_TECH = ("TLA+ oracle (Sem.tla) evaluated by TLC over exhaustively enumerated document families (ExecGen.tla) with every case replayed on the real code; "
+             "random universes/documents executed on the real code and judged by TLC (ExecJudge.tla)")
+EXEC_NOTE = ("Trusted: TLC, the renderer from abstract documents to request text, the harness resolvers (Resolver objects / AnyResolver) and their call log. "
+             "Exhaustive only over the stated families of the fixed universe U-exec; random universes beyond it. Deviations of ggql from the statement that are "
+             "recorded in known_findings.json are attributed by a second oracle M(K) computed by TLC, everything else is a violation.")
+for pid, txt in {
+    "C01": "data and operation choice of every case equal Sem!Response (selection semantics with fragment expansion, key merging, lists mirrored, leaf values, __typename)",
+    "C06": "every single resolver call of each request is made to fail in turn (pairs in the thorough tier); the error paths (multiset) and the data must equal Sem's",
+    "C09": "all 7x7 states of @skip/@include x both orders x field/inline/spread x two depths: response keys and resolver call log must equal Sem's",
+    "C10": "one defect injected per request (undefined field / undeclared argument / missing required argument / unknown, misplaced or ill-formed directive / undefined type condition) "
+           "under every container kind: error coverage naming the offender, call log (offender never invoked) and sibling data must equal Sem's",
+}.items():
+    CLAIMED[pid] = dict(level="model_checking", technique=EXEC_TECH, text=txt, note=EXEC_NOTE, design="DESIGN.md §6 " + pid)
+
 NOT_YET = {
 }
 
